@@ -14,7 +14,7 @@ from .. import contexts as C
 from .. import segmap as S
 from ..segmap import Seg
 from ..core import St, PathEnd
-from ..d1rules import blocked
+from ..d1rules import blocked, report_conflicts
 
 PROP = 'C06'
 LEVEL = 'proof'
@@ -127,6 +127,7 @@ def run(prog, rep, tier='quick'):
     rep.rule('axis', 'Range.<side>_gen yields integral bins times df, count == reference length')
     rep.rule('no-input-mutation', 'no conversion stores in place into a slice/asarray view of the PSD it is given')
     seen_mut = set()
+    seen_idx = set()
     n_mut = 0
     rep.assumptions += ['NFFT >= 8 (m >= 4): tiny transforms are not covered by the symbolic comparison',
                         'one-sided folding may take the +f or the -f copy (the PSD of real data is symmetric)']
@@ -158,6 +159,8 @@ def run(prog, rep, tier='quick'):
                     n_single += 1
                     if blocked(rep, 'single-conversion', gcp.qname, label, itp):
                         continue
+                    if report_conflicts(rep, 'single-conversion', itp, ('index',), label, seen_idx):
+                        continue        # a bound obtained by rounding an exact half-integer: reported at that construct
                     n_mut += 1
                     if check_no_mutation(rep, itp, gcp.qname, label, loc(gcp.mod, gcp.node), seen_mut):
                         rep.proved('no-input-mutation', gcp.qname, label, 'no in-place store into the stored PSD', loc(gcp.mod, gcp.node))
